@@ -21,7 +21,7 @@ def run_config(chk, tier, cfgname):
     typestate.apply(chk, "callback-unwind-rows", "root_paths", aspects=("safety",))
     nun = sum(1 for name in ("mark_one", "sweep_one", "drop_all", "root_paths") for r in T.get(name)
               for o in r.outs if o.kind == "unwind")
-    chk.floor("unwind-outcomes-explored", nun, 40)
+    chk.floor("unwind-outcomes-explored", nun, 20)
     common.protocol_rows(chk, prog, "protocol-on-unwind", ["collect_debt", "finish_marking", "finish_cycle"],
                          per_method=False, aspects=("safety", "walk"))
     typestate.report_automaton(chk, ["S6", "S7"])
